@@ -293,3 +293,42 @@ def h_reuse(ctx):
         return {'what': 'the result of parsing depends on what the parser object processed before', 'first': first, 'second': second,
                 'got': repr(a), 'fresh': repr(b)}
     return None
+
+
+SKELETONS = ['@[0]/A', 'A[1:2]/B', '@[:1]>A.B[0]', '/A[-1]', '@[1]A']
+
+
+def h_insert(ctx):
+    """
+    A well-formed expression with a solver-chosen string of <= k characters inserted at a solver-chosen position
+    (covers the single- and double-character mutations of longer expressions that the length-bounded runs do not reach).
+    """
+    p = ctx.params
+    sk = SKELETONS[p['skeleton']] if 'skeleton' in p else SKELETONS[ctx.choice('skeleton', len(SKELETONS))]
+    pos = ctx.choice('pos', len(sk) + 1)
+    ins = ctx.symstr('ins', p.get('maxlen', 1), p.get('alphabet', ALPHABET))
+    s = sk[:pos] + ins + sk[pos:]
+    try:
+        exp = ref_parse(s)
+        exp_err = None
+    except Reject as e:
+        exp, exp_err = None, e
+    except DontCare:
+        ctx.witness('dont-care')
+        return None
+    try:
+        got_subset, got_comps, obj = _real_parse(s)
+    except PathExprParsingError:
+        if exp is not None:
+            return {'what': 'a string of the documented grammar is rejected', 's': s}
+        ctx.witness('rejected')
+        return None
+    except Exception as e:
+        return {'what': 'rejected with another exception than PathExprParsingError', 's': s, 'exc': repr(e)[:200]}
+    if exp is None:
+        return {'what': 'a string outside the documented grammar is accepted', 's': s, 'why': str(exp_err), 'components': repr(got_comps),
+                'subset': repr(got_subset)}
+    if got_subset != exp[0] or got_comps != exp[1]:
+        return {'what': 'wrong components or slices', 's': s, 'got': repr((got_subset, got_comps)), 'exp': repr(exp)}
+    ctx.witness('accepted')
+    return None
